@@ -1,6 +1,6 @@
 """C06: Huffman container — the structural clauses (refusal of unknown symbols, what the code is
 built from, arm agreement).  The numeric clauses are not decided (see DESIGN.md)."""
-from core import Ctx, callee_tag, closure_sites, base_places
+from core import Ctx, callee_tag, closure_sites, base_places, all_ctxs
 from model import Catalogue, self_field_targets, constructed
 from expr import trees, tree, show, operand_tree, facts_at, reach_strict
 from r_bracket import walk
@@ -56,12 +56,31 @@ def none_edge_diverges(b, ctx, gbi):
     return False
 
 
+def pinned_representation(F, R, rule):
+    """The representation-dependent Huffman rules read the container's state as the pinned
+    `inner: Result<(Huffman, Vec<u8>, usize), Vec<B>>` (raw = Err, encoded = Ok(code, bytes, bits)).
+    A redesign of that private field (a private enum or struct in its place) is not a defect; the
+    rules then have no anchor and say so instead of judging code they cannot read."""
+    a = F.adts.get(HC)
+    if not a or not a.get("variants"):
+        return True
+    fields = a["variants"][0]["fields"]
+    inner = [f for f in fields if f["name"] == "inner"]
+    if inner and inner[0]["ty"]["s"].replace(" ", "").startswith("std::result::Result<("):
+        return True
+    R.undecided_site(rule, HC.split("::")[-1], "the container's state is no longer the pinned Result<(code, bytes, bits), raw>: "
+                     "fields %s; the raw / encoded arms are not recognised" % [(f["name"], f["ty"]["s"][:50]) for f in fields])
+    return False
+
+
 def r_code_source(F, R, cat=None):
     """merge_regions builds the code from the arguments' `stats` only; the new container starts
     with empty stats and an empty encoded buffer"""
     cat = cat or Catalogue(F)
     bodies = [b for b in F.methods_of_trait("Region", "merge_regions") if b.self_adt == HC]
     R.floor("R-CODE-SOURCE", "HuffmanContainer::merge_regions", len(bodies), 1)
+    if not pinned_representation(F, R, "R-CODE-SOURCE"):
+        return
     for b in bodies:
         R.saw(b)
         ctx, effs = cat.effects(b)
@@ -136,6 +155,10 @@ def r_stats_and_arms(F, R, cat=None):
     encoder / the raw buffer"""
     cat = cat or Catalogue(F)
     n = 0
+    if not pinned_representation(F, R, "R-HUFF-ARMS"):
+        R.floor("R-HUFF-ARMS", "canonical HuffmanContainer push impls",
+                len([b for b in F.methods_of_trait("Push", "push") if b.self_adt == HC]), 1)
+        return
     for b in F.methods_of_trait("Push", "push"):
         if b.self_adt != HC:
             continue
@@ -174,21 +197,74 @@ def r_stats_and_arms(F, R, cat=None):
             is_plus_one(trees(e.ctx, e.value)) for e in incs)
         # symbols handed to push_symbols / the raw buffer derive from the item
         sinks = []
+        sink_sites = []  # (top-level block, symbol stream tree)
         for (bi, t_) in b.calls():
             if callee_tag(t_.get("callee")) == ("Huffman", "encode") and len(t_["args"]) >= 3:
                 sym = operand_tree(ctx, t_["args"][2])
                 sinks.append(("encoded", derived_from_item(sym, b.key), show(sym)[:60]))
+                sink_sites.append((bi, sym))
         for o in ctx.org.local(0):
             t = tree(ctx, o)
             if t[0] == "call" and t[1] == ("fn", "push_symbols"):
                 sym = t[2][3]
                 sinks.append(("encoded", derived_from_item(sym, b.key), show(sym)[:60]))
+                sink_sites.append((t[4], sym))
         raws = [e for e in effs if e.cls == "append" and e.tag[0] in ("Vec", "Extend") and
                 any(f == "inner" and rest[:1] == ("v:Err",) for (f, rest) in self_field_targets(e, ctx))]
         for e in raws:
             a = trees(e.ctx, e.argorigins[1]) if len(e.argorigins) > 1 else ("opaque", "?")
             sinks.append(("raw", derived_from_item(a, b.key), show(a)[:60]))
+            sink_sites.append((e.top_bb, a))
         ok_sinks = bool(sinks) and all(s[1] for s in sinks)
+        # every storing arm is covered by a count: either counting code runs on every path through
+        # the arm (the counting loop in front of the dispatch), or the arm's own symbol stream
+        # passes through a closure that counts (`symbols.inspect(|x| count(x))`)
+        from r_codec import loop_header
+        eager = set()
+        for e in entries:
+            if e.ctx is ctx or (e.ctx.consumer and e.ctx.consumer[1][1] in ("for_each", "fold", "try_for_each", "try_fold")):
+                h = loop_header(b, e.top_bb)  # a counting loop is passed through its header also when the item is empty
+                eager.add(h if h is not None else e.top_bb)
+        counting_closures = set()
+        for e in entries:
+            c_ = e.ctx
+            while c_ is not None and c_.body.kind == "Closure":
+                counting_closures.add(c_.body.key)
+                c_ = c_.parent
+        # closures that capture a counting closure count as well (`|x| seen(x)`)
+        changed = True
+        all_cl = [c_ for c_ in all_ctxs(F, b) if c_.body.kind == "Closure"]
+        while changed:
+            changed = False
+            for c_ in all_cl:
+                if c_.body.key in counting_closures or c_.parent is None or c_.site_bb is None:
+                    continue
+                for (sbi, ssi, ck, ops) in closure_sites(c_.parent.body):
+                    if ck != c_.body.key:
+                        continue
+                    for op in ops:
+                        if op["k"] == "const":
+                            continue
+                        for (r_, p_) in c_.parent.org.operand(op):
+                            if r_[0] == "agg":
+                                rv_ = c_.parent.org.stmt(r_[1], r_[2])["rv"]
+                                if rv_.get("agg") == "closure" and rv_.get("closure") in counting_closures:
+                                    counting_closures.add(c_.body.key)
+                                    changed = True
+        uncovered = []
+        for (sb, sym) in sink_sites:
+            if not isinstance(sb, int):
+                continue
+            on_all_paths = sb not in b.reachable(0, eager) or not b.can_return_avoiding(eager, frm=sb)
+            through = any(nd[0] == "agg" and str(nd[1]).startswith("closure:") and nd[1][len("closure:"):] in counting_closures
+                          for nd in walk(sym) if nd)
+            if not (on_all_paths or through):
+                uncovered.append(show(sym)[:50])
+        if uncovered and entries:
+            R.check("R-HUFF-ARMS", b.label(), False, construct="every storing arm counts the symbols it stores",
+                    where=b.where(),
+                    detail="symbols stored without being counted (no counting code on every path through the arm, "
+                           "none in the stream itself): %s; the next merge generation builds its code from the counts alone" % uncovered)
         kinds = {s[0] for s in sinks}
         if fwd:
             kinds = kinds | {"forwarded-arm"}
